@@ -23,7 +23,7 @@ def startsOf (x : Nat) : Ev → Int
 /-- 1 if the event is the return of the callback of the repeating timer operation `x` (which may re-arm it). -/
 def rearmsOf (x : Nat) (w : World) : Ev → Int
   | .exit op => match w.stack with
-    | .user op' (.timerDone _ true) :: _ => if op = x ∧ op' = x then 1 else 0
+    | .user op' (.timerDone _ true _) :: _ => if op = x ∧ op' = x then 1 else 0
     | _ => 0
   | _ => 0
 
@@ -39,13 +39,13 @@ theorem setObj_refs_le (x : Nat) (w : World) (o o' : Obj) (hn : (ids w.objs).Nod
 
 theorem applyAfter_refs (x : Nat) (w : World) (op : Nat) (a : After) (hn : (ids w.objs).Nodup) :
     objRefs x (applyAfter w op a).objs ≤ objRefs x w.objs +
-      (match a with | .timerDone _ true => if op = x then 1 else 0 | _ => 0) ∧
+      (match a with | .timerDone _ true _ => if op = x then 1 else 0 | _ => 0) ∧
     (applyAfter w op a).posts = w.posts ∧ (applyAfter w op a).stack = w.stack := by
   cases a with
   | none => simp [applyAfter]
   | decDisp => simp [applyAfter]
   | postDone => simp [applyAfter]
-  | timerDone k rep =>
+  | timerDone k rep cb =>
     simp only [applyAfter]
     cases hg : getObj w k with
     | none => simp only; refine ⟨?_, by simp, by simp⟩; split <;> (try split) <;> omega
@@ -60,7 +60,7 @@ theorem applyAfter_refs (x : Nat) (w : World) (op : Nat) (a : After) (hn : (ids 
         all_goals first
           | exact ⟨by omega, by simp, by simp⟩
           | (refine ⟨?_, by simp, by simp⟩
-             have := refs_setObj_same x w o { o with cancelled := false, cancelledRep := false } hn hg' rfl (by simp [objRef])
+             have := refs_setObj_same x w o { o with cancelled := false } hn hg' rfl (by simp [objRef])
              omega)
           | (refine ⟨?_, by simp, by simp⟩
              have := refs_armTimer_le x w o op true hn hg'
@@ -147,7 +147,7 @@ theorem pollDispatch_refs (x : Nat) (w w' : World) (op : Nat) (any : Bool) (rest
           | (rename_i hc
              cases h
              simp only [Bool.and_eq_true, beq_iff_eq] at hc
-             have := setObj_refs x { w with pending := w.pending - 1 } o { o with evR := false, tstate := .ready, cancelledRep := (o.cancelledRep && info.kind != OpKind.timerRep) } hn hg' rfl
+             have := setObj_refs x { w with pending := w.pending - 1 } o { o with evR := false, tstate := .ready } hn hg' rfl
              simp only [refs, hst, frameRefs_cons, frameRef, setObj_posts] at this ⊢
              rw [this]
              have h0 := objRef_nonneg x o
@@ -203,7 +203,7 @@ theorem step_refs (x : Nat) (w w' : World) (e : Ev) (hn : (ids w.objs).Nodup) (h
       obtain ⟨h1, h2, h3⟩ := applyAfter_refs x { w with stack := rest } op after hn
       simp only [refs, hst, frameRefs_cons, frameRef, entersOf, startsOf, rearmsOf, h2, h3]
       cases after with
-      | timerDone k rep =>
+      | timerDone k rep cb =>
         cases rep with
         | true => simp only at h1 ⊢; rw [← hop]; split at h1 <;> simp_all <;> omega
         | false => simp only at h1 ⊢; omega
@@ -327,7 +327,7 @@ theorem step_refs (x : Nat) (w w' : World) (e : Ev) (hn : (ids w.objs).Nodup) (h
       all_goals first
         | refs_frames
         | (cases h
-           have := setObj_refs_le x (unsetPending w o) o { o with evR := false, cancelled := true, cancelledRep := true, tstate := .ready } hn hg' rfl
+           have := setObj_refs_le x (unsetPending w o) o { o with evR := false, cancelled := true, cancels := o.cancels + 1, tstate := .ready } hn hg' rfl
              (objRef_clear_le x o _ (Or.inl rfl) (Or.inr ⟨rfl, rfl⟩))
            simp only [refs, hst, frameRefs_cons, frameRef, entersOf, startsOf, rearmsOf, setObj_posts, unsetPending_posts,
              unsetPending_objs] at this ⊢
